@@ -92,7 +92,8 @@ CHECKS = {
                 'specification rows in nixsa/rules/r_ver.py and r_hdr.py. Assumes LocID::hasAttr/getAttr report the attribute '
                 'state faithfully (they are opaque booleans in the abstraction).'
                 ' Round 6: FormatVersion stores and returns its components without a value-losing integer conversion (R-VER-WIDTH).'
-                ' Round 7: the Force flag reaches the backend for every mode (File::open forwarded clause).',
+                ' Round 7: the Force flag reaches the backend for every mode (File::open forwarded clause).'
+                ' Round 8: LocID::getAttr answers "absent" only for an absent attribute (R-GETATTR).',
     },
     'C09': {
         'technique': 'static analysis: decision-table extraction + abstract interpretation (boolean abstraction, all paths) of '
@@ -132,7 +133,8 @@ CHECKS = {
                 'Collision probability is not decided.'
                 ' Added: R-NAMEFIRST and the R-NOCACHE clauses (a duplicate test that is fooled re-runs the creating constructor on an existing entity).'
                 ' Round 6: Identity carries the given name/id verbatim (R-IDENT); R-ATTRSEARCH.'
-                ' Round 8: R-EXACTCMP.',
+                ' Round 8: R-EXACTCMP.'
+                ' The id given to a creating constructor reaches EntityHDF5 unchanged (R-ID-FWD).',
     },
     'C13': {
         'technique': 'static analysis: dominance/guard-fact rules at every ticks / sampling-interval sink call site, linear-form check '
@@ -158,7 +160,8 @@ CHECKS = {
                 'numeric identity and selection invariance are not decided.'
                 ' Added: memo-wrapper idiom with key injectivity, R-MEMO, R-PARALLEL, R-UNIT-SCALEPOS (case-sensitive unit equality).'
                 ' Round 6: the [prefix]unit grammar is unambiguous (R-UNIT-TAB).'
-                ' Round 7: R-ALIGNED.',
+                ' Round 7: R-ALIGNED.'
+                ' Round 8: positionToIndex overloads pass position and unit on unchanged (R-POSPASS).',
     },
     'C19': {
         'technique': 'static analysis: rule-table extraction from the validate overloads (level/getter/predicate/parent), channel '
